@@ -1005,11 +1005,48 @@ func c06Deadline(p *core.Program, r *core.Report) {
 	if pk == nil {
 		return
 	}
+	// functions of the package that write to the connection, directly or through one another
+	writers := map[*types.Func]bool{}
+	directWrite := func(info *types.Info, call *ast.CallExpr) bool {
+		sel, ok := ast.Unparen(call.Fun).(*ast.SelectorExpr)
+		if !ok {
+			return false
+		}
+		switch sel.Sel.Name {
+		case "Write", "Flush", "WriteString", "ReadFrom":
+			if t := info.TypeOf(sel.X); t != nil {
+				ts := t.String()
+				return strings.Contains(ts, "bufio.Writer") || strings.Contains(ts, "net.Conn") || strings.Contains(ts, "net.TCPConn") || strings.Contains(ts, "io.Writer")
+			}
+		}
+		return false
+	}
+	for round := 0; round < 4; round++ {
+		for _, wf := range p.Funcs {
+			if wf.Pkg != pk || wf.Decl.Body == nil || writers[wf.Obj] {
+				continue
+			}
+			ast.Inspect(wf.Decl.Body, func(n ast.Node) bool {
+				if call, ok := n.(*ast.CallExpr); ok {
+					if directWrite(wf.Pkg.TypesInfo, call) {
+						writers[wf.Obj] = true
+					} else if fn := calleeFunc(wf.Pkg.TypesInfo, call); fn != nil && writers[fn] {
+						writers[wf.Obj] = true
+					}
+				}
+				return true
+			})
+		}
+	}
 	writesAfter := func(fi *core.FuncInfo, after token.Pos) bool {
 		found := false
 		ast.Inspect(fi.Decl.Body, func(n ast.Node) bool {
 			call, ok := n.(*ast.CallExpr)
 			if !ok || call.Pos() <= after {
+				return true
+			}
+			if fn := calleeFunc(fi.Pkg.TypesInfo, call); fn != nil && writers[fn] {
+				found = true
 				return true
 			}
 			sel, ok := ast.Unparen(call.Fun).(*ast.SelectorExpr)
